@@ -74,6 +74,7 @@ class SplitMix:
 def seed_and_tier(default_tier):
     seed = int(os.environ.get('VERIF_SEED', '20260930'))
     tier = os.environ.get('VERIF_TIER', default_tier)
+    os.environ['VERIF_TIER_EFFECTIVE'] = tier
     return seed, tier
 
 
@@ -305,6 +306,29 @@ TRUSTED_COMMON = [
 ]
 
 
+def coqchk_stage(prop, timeout=7200):
+    """thorough tier: re-check Props/<prop>.vo and everything it depends on with the independent checker
+    coqchk and record the axioms it reports. Cached by a hash of the project's sources (one run per tree)."""
+    files = [os.path.join(COQ, f) for f in coq_project_files()]
+    key = _hash_files(files)[:16]
+    cache = os.path.join(BUILD, f'coqchk_{prop}_{key}.json')
+    if os.path.exists(cache):
+        return json.load(open(cache))
+    t0 = time.time()
+    with Lock('coq'):
+        rc, out = sh(f'coqchk -silent -o -R . Stef Stef.Props.{prop}', cwd=COQ, timeout=timeout)
+    m = re.search(r'\* Axioms:(.*?)\n\s*\n\* Constants/Inductives relying on type-in-type:(.*?)\n\s*\n\* Constants/Inductives relying on unsafe \(co\)fixpoints:(.*?)\n\s*\n\* Inductives whose positivity is assumed:(.*?)\n', out + '\n\n', re.S)
+    fields = [' '.join(x.split()) for x in m.groups()] if m else []
+    ok = rc == 0 and bool(m) and all(f == '<none>' for f in fields)
+    res = dict(ok=ok, rc=rc, cmd=f'cd coq && coqchk -silent -o -R . Stef Stef.Props.{prop}', wall_s=round(time.time() - t0, 1),
+               axioms=fields[0] if fields else None, type_in_type=fields[1] if fields else None,
+               unsafe_fixpoints=fields[2] if fields else None, assumed_positivity=fields[3] if fields else None,
+               summary=' | '.join(fields) if fields else out[-400:])
+    if rc == 0 and m:
+        json.dump(res, open(cache, 'w'))
+    return res
+
+
 def proof_stage(prop, verdict, extra_files=()):
     """Steps 1-2 of every check: regenerate, build, collect assumptions, hygiene.
     Returns a dict merged into the evidence coverage. Broken obligations are returned in ['broken']."""
@@ -330,6 +354,11 @@ def proof_stage(prop, verdict, extra_files=()):
     hy = hygiene()
     if hy:
         broken += [f'forbidden declaration: {h}' for h in hy]
+    if os.environ.get('VERIF_TIER_EFFECTIVE') == 'thorough' and pr['ok'] and not broken:
+        ck = coqchk_stage(prop)
+        info['coqchk'] = ck
+        if not ck['ok']:
+            broken.append('coqchk (independent checker) does not accept Props/%s.vo and its dependencies: %s' % (prop, ck['summary'][:300]))
     info['obligations'] = len(pr['theorems'])
     info['discharged'] = len(pr['discharged']) if pr['ok'] else 0
     info['broken'] = broken
